@@ -28,8 +28,15 @@ var vHosts = []string{"h1.io", "h2.io"}
 var vPaths = []string{"/", "/a", "/a/b", "/ab"}
 var vKeys = []string{"k1", "k2"}
 
+// vSharedURI: when set, every jar operation goes through this one URI object, the way a reused
+// request hands its (overwritten) host and path buffers to the jar.
+var vSharedURI *fasthttp.URI
+
 func vURI(host, path string) *fasthttp.URI {
-	u := fasthttp.AcquireURI()
+	u := vSharedURI
+	if u == nil {
+		u = fasthttp.AcquireURI()
+	}
 	_ = u.Parse(nil, []byte("http://"+host+path))
 	return u
 }
@@ -38,10 +45,15 @@ func vPast() time.Time   { return time.Date(2001, 1, 1, 0, 0, 0, 0, time.UTC) }
 func vFuture() time.Time { return time.Date(2101, 1, 1, 0, 0, 0, 0, time.UTC) }
 
 // VH_C18_jar: a history of k operations with a Get for every (host, path) after each operation
-// (case = k) or only after the last one (case = 10+k: expired cookies pile up before the first lookup).
+// (case = k) or only after the last one (case = 10+k: expired cookies pile up before the first lookup);
+// +20: all operations share one URI object (its host/path buffers are overwritten by every operation).
 func VH_C18_jar(caseID int) {
 	k := caseID % 10
-	onlyAtEnd := caseID >= 10
+	onlyAtEnd := (caseID/10)%2 == 1
+	vSharedURI = nil
+	if caseID >= 20 {
+		vSharedURI = fasthttp.AcquireURI()
+	}
 	jar := &CookieJar{}
 	model := map[vJarKey]*vJarVal{}
 	seq := 0
@@ -126,7 +138,8 @@ func VH_C18_jar(caseID int) {
 				c.SetExpire(vFuture())
 			}
 			resp.Header.SetCookie(c)
-			jar.parseCookiesFromResp([]byte(h), []byte(p), resp)
+			ru := vURI(h, p)
+			jar.parseCookiesFromResp(ru.Host(), ru.Path(), resp)
 			fasthttp.ReleaseCookie(c)
 			fasthttp.ReleaseResponse(resp)
 		}
